@@ -77,7 +77,10 @@ func (l *childLog) line(s string) {
 }
 
 func runCase(p *Prop, idx int, c Case) *Result {
-	r := &Result{Index: idx, Name: c.Name, Verdict: Held}
+	return runCaseInto(&Result{Index: idx, Name: c.Name, Verdict: Held}, p, c)
+}
+
+func runCaseInto(r *Result, p *Prop, c Case) *Result {
 	t0 := time.Now()
 	func() {
 		defer func() {
@@ -164,7 +167,8 @@ func childMain(args []string) int {
 			defer func() { <-sem }()
 			cl.line(fmt.Sprintf("S %d", i))
 			done := make(chan *Result, 1)
-			go func() { done <- runCase(p, i, cases[i]) }()
+			live := &Result{Index: i, Name: cases[i].Name, Verdict: Held}
+			go func() { done <- runCaseInto(live, p, cases[i]) }()
 			var r *Result
 			select {
 			case r = <-done:
@@ -175,6 +179,19 @@ func childMain(args []string) int {
 					pprof.Lookup("goroutine").WriteTo(f, 2)
 					f.Close()
 				}
+				// a case that had already decided "violated" keeps that verdict (typically the clean-up of
+				// the connection it found broken is what never returns)
+				live.mu.Lock()
+				if live.Verdict == Violated && len(live.Vios) > 0 {
+					snap := &Result{Index: i, Name: live.Name, Verdict: Violated, Vios: live.Vios, Keys: live.Keys, Counts: live.Counts, Sample: live.Sample, Ms: timeout.Milliseconds()}
+					if b, err := json.Marshal(snap); err == nil {
+						omu.Lock()
+						of.Write(append(b, '\n'))
+						of.Sync()
+						omu.Unlock()
+					}
+				}
+				live.mu.Unlock()
 				cl.line(fmt.Sprintf("W %d %s", i, dump))
 				os.Exit(3)
 			}
@@ -410,6 +427,9 @@ func parentMain(args []string) int {
 							os.MkdirAll(filepath.Dir(keep), 0o755)
 							if d, e := os.ReadFile(dump); e == nil {
 								os.WriteFile(keep, d, 0o644)
+							}
+							if got[i] && results[i] != nil && results[i].Verdict == Violated {
+								continue // decided before the watchdog fired
 							}
 							inconc = append(inconc, fmt.Sprintf("case %d (%s): harness watchdog expired, goroutine dump %s", i, cases[i].Name, keep))
 							results[i] = &Result{Index: i, Name: cases[i].Name, Verdict: Inconclusive, Reason: "harness watchdog"}
